@@ -117,6 +117,20 @@ CHECKS["C13"] = (
     "DESIGN.md section 3, C13",
 )
 
+CHECKS["C12"] = (
+    "CPX",
+    "model_checking",
+    "stateless deviation-bounded exploration of every random answer (choice-point explorer over random.*) of the real fuzzer and mutator, on all open/closed trees up to a bound",
+    "The five functions of the random module that fuzzer.py and mutator.py call are replaced by a choice-point explorer. For every open "
+    "prefix (ids both fresh and caller-supplied just ahead of the global id counter) of every closed tree of five grammars, both fuzzer "
+    "classes and two nonterminal-budget settings, expand_tree is run under every answer sequence with at most 3 (thorough 4) deviations from "
+    "a fixed default schedule within the first 16 (24) choice points - completely for inputs with one open leaf; Mutator.mutate likewise "
+    "on every closed tree with two mutation-count settings; a long-lived coverage fuzzer is driven through all 125 call sequences of "
+    "length 3 over five inputs. Every result must be closed, grammar-valid, keep the root and (completion) every already expanded node.",
+    "Termination is not part of the property: runs cut by the 3 s cap are counted, not judged. VERIF_SEED only selects the default schedule.",
+    "DESIGN.md section 3, C12",
+)
+
 NOT_YET = "check not built yet in this round (planned in DESIGN.md section 3)"
 
 
